@@ -17,7 +17,7 @@ var RaceMode bool
 var Races = map[string]int{}
 
 // RaceInfo: first schedule on which each race was seen.
-var RaceInfo = map[string][]int{}
+var RaceInfo = map[string][]Choice{}
 
 type memLast struct {
 	thr   *Thread
@@ -26,18 +26,33 @@ type memLast struct {
 	site  string
 }
 
+// site: the function (not the line: instrumented files have other line numbers than the
+// repository) of the first caller outside the shim.
 func site() string {
-	for skip := 3; skip < 10; skip++ {
-		_, f, l, ok := runtime.Caller(skip)
-		if !ok {
-			break
+	pc := make([]uintptr, 12)
+	n := runtime.Callers(3, pc)
+	frames := runtime.CallersFrames(pc[:n])
+	for {
+		f, more := frames.Next()
+		if f.Function != "" && !strings.HasPrefix(f.Function, "vs.") && !strings.Contains(f.File, "/vs/") {
+			fn := f.Function
+			if i := strings.LastIndex(fn, "/"); i >= 0 {
+				fn = fn[i+1:]
+			}
+			return fn
 		}
-		if !strings.Contains(f, "/vs/") {
-			parts := strings.Split(f, "/")
-			return fmt.Sprintf("%s:%d", parts[len(parts)-1], l)
+		if !more {
+			break
 		}
 	}
 	return "?"
+}
+
+func rw(w bool) string {
+	if w {
+		return "[write]"
+	}
+	return "[read]"
 }
 
 func memAccessLabel(lbl string, write bool) {
@@ -49,13 +64,13 @@ func memAccessLabel(lbl string, write bool) {
 	st := site()
 	for _, l := range s.memHist[lbl] {
 		if l.thr != t && (l.write || write) && !leq(l.clk, sc) {
-			a, b := l.site, st
+			a, b := l.site+rw(l.write), st+rw(write)
 			if a > b {
 				a, b = b, a
 			}
 			k := a + " <-> " + b
 			if Races[k] == 0 {
-				RaceInfo[k] = s.ChoiceIndices()
+				RaceInfo[k] = s.ReplayChoices()
 			}
 			Races[k]++
 		}
@@ -96,3 +111,6 @@ func MapSet[K comparable, V any](m map[K]V, k K, v V) { memAccess(m, true); m[k]
 func MapDel[K comparable, V any](m map[K]V, k K)      { memAccess(m, true); delete(m, k) }
 func MapLen[K comparable, V any](m map[K]V) int       { memAccess(m, false); return len(m) }
 func MapRead[K comparable, V any](m map[K]V) map[K]V  { memAccess(m, false); return m }
+
+// MapW marks a write access to the map and returns it (used as `vs.MapW(m)[k] = v`).
+func MapW[K comparable, V any](m map[K]V) map[K]V { memAccess(m, true); return m }
